@@ -181,7 +181,7 @@ def run(ctx):
     if ctx.quick:
         ctx.exhaustive = False
         # one handle thread against the resolver: every construction mode, every resolver kind (sampled paths)
-        run_cfg(ctx, rp, "s1", h1, modes, ALL_KINDS, co=h1, bl=h1, po=h1, copies=1, handles=2, max_paths=3500, must=seq_must)
+        run_cfg(ctx, rp, "s1", h1, modes, ALL_KINDS, co=h1, bl=h1, po=h1, copies=1, handles=2, max_paths=3000, must=seq_must)
         run_cfg(ctx, rp, "s2", h1, ["fn", "late", "setval"], ["val", "drop"], cb=h1, bl=h1, copies=1, handles=2, must=["BeginCb"])
         # two handle threads: drop of the last handle against the resolver's chain walk / tracer release
         kinds = [ALL_KINDS[ctx.seed % 4]]
@@ -189,7 +189,7 @@ def run(ctx):
         # (init: copies exist before get_promise(); the earlier copies' awaiters must be released with the result)
         run_cfg(ctx, rp, "c2", h2, ["retfut", "async", "init"], ["val"], co=["h2"], po=["h1"], copies=1, handles=1, must=["GetPromise"])
         run_cfg(ctx, rp, "c3", h2, ["fn"], ["val"], cb=["h1"], bl=["h2"], copies=2, handles=1)
-        run_cfg(ctx, rp, "c4", h2, [modes[-1]], ["val"], co=["h1"], bl=["h2"], po=["h2"], copies=2, handles=2, max_paths=1500)
+        run_cfg(ctx, rp, "c4", h2, [modes[-1]], ["val"], co=["h1"], bl=["h2"], po=["h2"], copies=2, handles=2, max_paths=1200)
         tlc_only(ctx, "live", h2, ["fn", "late"], kinds, co=["h1"], bl=["h2"], cb=["h2"], copies=1, handles=1)
         # sanitized replays (this one and c1; no weak_ptr probe): a touch of the state after the last reference is gone
         # aborts the replayer
